@@ -148,6 +148,36 @@ def run(substrate, tpl, invert, strategy="all", flags=None, automorphism=False, 
             signal.signal(signal.SIGALRM, old)
 
 
+def pattern_ref_tie(G):
+    """harness-side necessary condition for any symmetry pruning: after folding explicit hydrogens into counts, do two
+    pattern atoms agree on (element, charge, aromatic, hcount) and on the multiset of (neighbour label, bond order)?
+    This is one round of colour refinement over the documented labels - coarser than (or equal to) every orbit
+    partition a correct WL-1 estimate or an exact automorphism search can return."""
+    lab0, drop = {}, set()
+    extra = {}
+    for n, d in G.nodes(data=True):
+        if d.get("element") == "H":
+            heavy = [m for m in G[n] if G.nodes[m].get("element") != "H"]
+            if heavy:
+                drop.add(n)
+                for m in heavy:
+                    extra[m] = extra.get(m, 0) + 1
+        elif d.get("element") == "*":
+            drop.add(n)
+    for n, d in G.nodes(data=True):
+        if n not in drop:
+            lab0[n] = (d.get("element"), d.get("charge", 0), bool(d.get("aromatic", False)), (d.get("hcount", 0) or 0) + extra.get(n, 0))
+    lab1 = {}
+    for n in lab0:
+        nb = []
+        for m in G[n]:
+            if m in lab0:
+                o = G[n][m].get("order")
+                nb.append((repr(lab0[m]), repr(o)))
+        lab1[n] = (lab0[n], tuple(sorted(nb)))
+    return len(set(lab1.values())) < len(lab1)
+
+
 def _run(substrate, tpl, invert, strategy="all", flags=None, automorphism=False, want_its=False):
     from synkit.Synthesis.Reactor.syn_reactor import SynReactor
 
@@ -166,6 +196,13 @@ def _run(substrate, tpl, invert, strategy="all", flags=None, automorphism=False,
         smarts = list(rx.smarts_list)
         out = {"smarts": smarts, "std": {x for x in (std_fit(s) for s in smarts) if x},
                "n_raw": n_raw, "n_pruned": n_pruned, "n_maps": len(maps)}
+        try:
+            out["pattern_tie"] = pattern_ref_tie(rx.rule.left.raw)
+        except Exception:
+            out["pattern_tie"] = None
+        if n_pruned < n_raw and out["pattern_tie"] is False and not BYPASS[0]:
+            STATS["pruned_without_tie"] = STATS.get("pruned_without_tie", 0) + 1
+            out["pruned_without_tie"] = True
         if want_its:
             out["its"] = rx.its_list
             out["rx"] = rx
@@ -216,6 +253,17 @@ def run_case(rid, kind, d, strategy, rsmi=None, bypass=False, automorphism=False
 KF_PRUNE = "synreactor-pattern-orbit-pruning"
 
 
+def pruned_without_symmetry(ctx, out, wit):
+    """matches were merged as symmetry-equivalent although no two pattern atoms look alike under the documented labels
+    (element, charge, aromatic, hydrogen count, bonded neighbours): the orbits handed to the pruning step are wrong."""
+    if out.get("pattern_tie") is not None and out["n_pruned"] < out["n_raw"]:
+        ctx.count("pruning_symmetry_reference_checked")
+    if out.get("pruned_without_tie"):
+        ctx.violation("pruned-without-symmetry", dict(wit),
+                      f"{out['n_raw']} raw matches were pruned to {out['n_pruned']} although all pattern atoms are pairwise distinguishable "
+                      "by element, charge, aromaticity, hydrogen count and their bonded neighbours")
+
+
 def pruning_case(ctx, rid, kind, d, strategy, automorphism=False, rsmi=None, tag="corpus own-template"):
     wit = {"template_rid": rid, "kind": kind, "dir": d, "strategy": strategy, "automorphism": automorphism}
     if rsmi:
@@ -228,6 +276,7 @@ def pruning_case(ctx, rid, kind, d, strategy, automorphism=False, rsmi=None, tag
         return None
     if a["n_pruned"] < a["n_raw"]:
         ctx.count("pruning_removed_matches")
+    pruned_without_symmetry(ctx, a, wit)
     diff = a["std"] != b["std"]
     if diff:
         lost = sorted(b["std"] - a["std"])
@@ -254,6 +303,13 @@ SYNTH_PRUNE = [
     ("[CH2:1]=[CH2:2].[CH2:3]=[CH2:4]>>[CH2:1]=[CH2:3].[CH2:2]=[CH2:4]", ["CC=C.C=CCC", "C=C.C=CC"]),
     ("[CH3:1][C:2](=[O:3])[OH:4].[CH3:5][OH:6]>>[CH3:1][C:2](=[O:3])[O:6][CH3:5].[OH2:4]", ["CC(=O)O.OCCO", "OC(=O)CC(=O)O.CO"]),
     ("[CH3:1][Cl:2].[NH3:3]>>[CH3:1][NH2:3].[ClH:2]", ["ClCCCl.N", "CCl.NCCN"]),
+    # pattern atoms that differ only in their hydrogen count, on a non-anchor component
+    ("[C:1]([H:2])=[C:3].[C:4](=[O:5])[Cl:6]>>[C:1]([C:4]=[O:5])=[C:3].[H:2][Cl:6]", ["CC=CCC.CC(=O)Cl", "CC=CC.CC(=O)Cl", "CC=C(C)C.CC(=O)Cl"]),
+    ("[CH:1]([H:2])=[CH:3].[CH3:7][C:4](=[O:5])[Cl:6]>>[CH:1]([C:4]([CH3:7])=[O:5])=[CH:3].[H:2][Cl:6]", ["CC=CCC.CC(=O)Cl"]),
+    ("[C:1][C:2][H:3].[Cl:4][Cl:5]>>[C:1][C:2][Cl:4].[H:3][Cl:5]", ["CCC.ClCl", "CCCC.ClCl"]),
+    ("[N:1]([H:2])[N:3].[C:4](=[O:5])[Cl:6]>>[N:1]([C:4]=[O:5])[N:3].[H:2][Cl:6]", ["CNN(C)C.CC(=O)Cl", "CNNC.CC(=O)Cl"]),
+    # many cross-component combinations (2 esters x 2 x 2 alcohol sites): exercises the embedding cap
+    ("[C:1][O:2].[O:3][H:4]>>[C:1][O:3].[O:2][H:4]", ["COC(=O)CC(=O)OCC.CC(O)CO", "COC(C)=O.OCCO"]),
 ]
 
 
@@ -277,6 +333,7 @@ def pruning_pair(ctx, tpl_rsmi, sub, wid, automorphism=False):
         return
     if a["n_pruned"] < a["n_raw"]:
         ctx.count("pruning_removed_matches")
+    pruned_without_symmetry(ctx, a, {"template": tpl_rsmi, "substrate": sub, "automorphism": automorphism})
     if a["std"] != b["std"]:
         lost, extra = sorted(b["std"] - a["std"]), sorted(a["std"] - b["std"])
         ctx.violation("pruning-changes-results", {"template": tpl_rsmi, "substrate": sub, "automorphism": automorphism, "lost": lost[:3], "extra": extra[:3]},
